@@ -434,7 +434,7 @@ def _jobs_for(prop, tier):
         return [j for j in jobs_option_below(tier) if j[1][3] == 'combinations'] + jobs_combinations(tier) + jobs_axis0(tier, 'combinations')
     if prop == 'C03':
         return jobs_c03(tier) + jobs_option_reduce(tier) + jobs_axis(tier, ('reduce',)) + jobs_reduce_nonlocal(tier)
-    return {'C02': jobs_c02, 'C03': jobs_c03, 'C04': jobs_c04, 'C06': (lambda t: jobs_c06(t) + jobs_axis(t, ('sort', 'argsort')) + jobs_numpy_sort(t) + jobs_sort_nonlocal(t) + jobs_option_sort(t) + jobs_option_sort_above(t)), 'C08': (lambda t: jobs_c08(t) + jobs_numpy(t) + jobs_union(t) + jobs_reverse_merge(t) + jobs_record_merge(t) + jobs_list_merge(t) + [j for j in jobs_record_named(t) if j[0] is h_record_mergemany_named] + jobs_merge_union(t) + jobs_union_ops(t)), 'C17': (lambda t: jobs_c17(t) + jobs_record_keys(t)), 'C12': jobs_numpy, 'C10': (lambda t: jobs_c10(t) + [j for j in jobs_record_named(t) if j[0] is h_record_field_key] + jobs_project(t) + [j for j in jobs_option_below(t) if j[1][3] == 'getitem_field'] + jobs_record_setitem(t)), 'C05': jobs_c05, 'C09': jobs_c09}.get(prop, lambda t: [])(tier)
+    return {'C02': jobs_c02, 'C03': jobs_c03, 'C04': jobs_c04, 'C06': (lambda t: jobs_c06(t) + jobs_axis(t, ('sort', 'argsort')) + jobs_numpy_sort(t) + jobs_sort_nonlocal(t) + jobs_option_sort(t) + jobs_option_sort_above(t) + jobs_option_argsort(t)), 'C08': (lambda t: jobs_c08(t) + jobs_numpy(t) + jobs_union(t) + jobs_reverse_merge(t) + jobs_record_merge(t) + jobs_list_merge(t) + [j for j in jobs_record_named(t) if j[0] is h_record_mergemany_named] + jobs_merge_union(t) + jobs_union_ops(t)), 'C17': (lambda t: jobs_c17(t) + jobs_record_keys(t)), 'C12': jobs_numpy, 'C10': (lambda t: jobs_c10(t) + [j for j in jobs_record_named(t) if j[0] is h_record_field_key] + jobs_project(t) + [j for j in jobs_option_below(t) if j[1][3] == 'getitem_field'] + jobs_record_setitem(t)), 'C05': jobs_c05, 'C09': jobs_c09}.get(prop, lambda t: [])(tier)
 
 
 # ------------------------------------------------------------------------------------------------ C01: getitem_next of list nodes
@@ -4727,7 +4727,7 @@ def h_option_sort(pattern, parents_c):
     nc.m.eng.stubs['vf$slot%d' % nc.slot('12branch_depthEv')] = lambda eng, fr, ins, st, name, argv: [z3.BitVecVal(0, 8), BV(1)]
     this, idx = build_option64(nc, pattern)
     G = max(parents_c) + 1 if parents_c else 1
-    first_of = {g: min([i for i, p in enumerate(parents_c) if p == g] + [0]) for g in range(G)}
+    first_of = {g: sum(1 for p in parents_c if p < g) for g in range(G)}        # groups are contiguous and in order: group g starts after all entries of the earlier groups
 
     def index64(name, vals):
         arr = z3.K(z3.BitVecSort(64), BV(0))
@@ -5190,7 +5190,7 @@ def h_option_sort_above(pattern, parents_c, arg, lens=None):
     nc.m.eng.stubs['vf$slot%d' % nc.slot('12branch_depthEv')] = lambda eng, fr, ins, st, name, argv: [z3.BitVecVal(0, 8), BV(2)]
     this, idx = build_option64(nc, pattern)
     G = max(parents_c) + 1 if parents_c else 1
-    first_of = {g: min([i for i, p in enumerate(parents_c) if p == g] + [0]) for g in range(G)}
+    first_of = {g: sum(1 for p in parents_c if p < g) for g in range(G)}        # groups are contiguous and in order: group g starts after all entries of the earlier groups
 
     def index64(name, vals):
         arr = z3.K(z3.BitVecSort(64), BV(0))
@@ -5262,3 +5262,122 @@ def jobs_option_sort_above(tier):
     if tier != 'quick':
         q += [((0, 0, 1, 0, 0), (0, 0, 0, 0, 1)), ((1, 0), (0, 0)), ((0, 0), (0, 1)), ((1, 1), (0, 1)), ((0, 1, 0, 1, 0, 0), (0, 0, 1, 1, 2, 2)), ((0,), (0,)), ((1,), (0,)), ((1, 0, 0, 1), (0, 1, 2, 2))]
     return [(h_option_sort_above, (pat, par, a), 1800) for pat, par in q for a in (False, True)]
+
+
+# ------------------------------------------------------------------------------------------------ C06: argsort with missing values at the sorted level
+@guard
+def h_option_argsort(pattern, parents_c):
+    """IndexedOptionArray64::argsort_next at the leaf level: the content is handed exactly the valid entries, in order, each with the group of
+    its position; in the answer every group keeps its number of entries: first what the content answered for that group's valid entries, then the
+    positions (inside the group) of the group's missing entries, in order - missing values sort last"""
+    pattern = tuple(map(bool, pattern))
+    parents_c = list(parents_c)
+    n = len(pattern)
+    nc = NodeCtx(['IA', 'RA', 'LOA', 'NA', 'IDX', 'CNT', 'UTL', 'KD', 'IDS'], [], unwind=max(14, 4 * n + 12))
+    seen = []
+    S = z3.Function('SORTED', z3.BitVecSort(64), z3.BitVecSort(64))
+    kk = z3.BitVec('k!', 64)
+
+    def s_argsort_next(eng, fr, ins, st, name, argv):
+        sret, selfp, negaxis, starts, shifts, parents_, outl, asc, stb = argv
+        nm, info = nc.content_info(selfp, st, eng)
+        seen.append(dict(pc=st.pc, info=info, negaxis=negaxis, parents=nc.index_terms(st.mem, parents_, 'parents')[0], outlength=outl, asc=asc, stb=stb))
+        nc._ret(st, sret, nc.fresh_content(eng, st, info['length'], z3.Lambda([kk], S(kk)), derived='sorted'))
+        return None
+
+    def s_mergemany(eng, fr, ins, st, name, argv):
+        # the answer of the content (positions) is merged with a NumpyArray of positions: all entries of the first, then all of the second
+        sret, selfp, vec = argv
+        first, finfo = nc.content_info(selfp, st, eng)
+        o = st.mem.o[vec.obj]
+        b, e = o.cells[vec.off][0], o.cells[vec.off + 8][0]
+        qb = [q for g, q in nodeh.ptr_cases(b) if q.obj is not None][0]
+        qe = [q for g, q in nodeh.ptr_cases(e) if q.obj is not None][0]
+        buf = st.mem.o[qb.obj]
+        nbytes = nodeh.concrete(qe.off - qb.off if not isinstance(qe.off, int) else BV(qe.off - qb.off), 'size of the vector of contents to merge')
+        if nbytes != 16 or not isinstance(buf, nodeh.RecObj):
+            raise Unsupported('merge with %d bytes of operands' % nbytes)
+        other = nodeh.decode(nc, st.mem, buf.cells[qb.off][0])
+        if other['cls'] != 'numpy':
+            raise Unsupported('merge operand %s' % other['cls'])
+        total = finfo['length'] + len(other['values'])
+        body = BV(-7)
+        for j, v in enumerate(other['values']):
+            body = z3.If(kk == finfo['length'] + j, v, body)
+        body = z3.If(kk < finfo['length'], z3.Select(finfo['atoms'], kk), body)
+        nc._ret(st, sret, nc.fresh_content(eng, st, z3.simplify(total), z3.Lambda([kk], body), derived='merged'))
+        return None
+    nc.m.eng.stubs['vf$slot%d' % nc.slot('12argsort_nextElRKNS_7IndexOfIlEES4_S4_lbb')] = s_argsort_next
+    nc.m.eng.stubs['vf$slot%d' % nc.slot('9mergemanyERKSt6vector')] = s_mergemany
+    nc.m.eng.stubs['vf$slot%d' % nc.slot('9mergeableERKSt10shared_ptrINS_7ContentEEb')] = lambda eng, fr, ins, st, name, argv: z3.BitVecVal(1, 1)
+    nc.m.eng.stubs['vf$slot%d' % nc.slot('12branch_depthEv')] = lambda eng, fr, ins, st, name, argv: [z3.BitVecVal(0, 8), BV(1)]
+    this, idx = build_option64(nc, pattern)
+    G = max(parents_c) + 1 if parents_c else 1
+    first_of = {g: sum(1 for p in parents_c if p < g) for g in range(G)}        # groups are contiguous and in order: group g starts after all entries of the earlier groups
+
+    def index64(name, vals):
+        arr = z3.K(z3.BitVecSort(64), BV(0))
+        for i, v in enumerate(vals):
+            arr = z3.Store(arr, BV(i), BV(v))
+        d = nc.m.array(name + '_data', ('i', 64), max(1, len(vals)), const=True, arr=arr)
+        cells = {}
+        nc.index_cells(cells, 0, d, BV(0), BV(len(vals)))
+        return nc.m.record(name, cells, const=True)
+    parents, starts, shifts = index64('parents', parents_c), index64('starts', [first_of[g] for g in range(G)]), index64('shifts', [])
+    asc, stb = nc.m.bv('ascending', 1), nc.m.bv('stable', 1)
+    nc.m.record('ret', {})
+    cands = [f for mod_ in nc.m.eng.mods for f in mod_.func_src if f.startswith('_ZNK7awkward14IndexedArrayOfIlLb1EE12argsort_nextE')]
+    out = nc.m.call(cands[0], [Ptr('ret', 0), this, BV(1), starts, shifts, parents, BV(G), asc, stb])
+    obls = [('argsort_next does not raise', out.raised), ('the content is asked', z3.Not(z3.Or([ob['pc'] for ob in seen] + [z3.BoolVal(False)])))]
+    valid = [i for i, m_ in enumerate(pattern) if not m_]
+    for ob in seen:
+        g, info = ob['pc'], ob['info']
+        obls.append(('the content handed over holds exactly the valid entries', z3.And(g, info['length'] != len(valid))))
+        for k, i in enumerate(valid):
+            obls.append(('entry %d handed over is valid entry %d (position %d)' % (k, k, i), z3.And(g, z3.Select(info['atoms'], BV(k)) != idx[i])))
+        if len(ob['parents']) != len(valid):
+            obls.append(('one group per valid entry', g))
+        else:
+            for k, i in enumerate(valid):
+                obls.append(('group of valid entry %d is the group of its position' % k, z3.And(g, ob['parents'][k] != parents_c[i])))
+        obls.append(('direction, stability, negaxis and the number of groups are handed on unchanged', z3.And(g, z3.Or(ob['asc'] != asc, ob['stb'] != stb, ob['negaxis'] != 1, ob['outlength'] != G))))
+    want = []
+    for gi in range(G):
+        members = [i for i, p in enumerate(parents_c) if p == gi]
+        ks = [k for k, i in enumerate(valid) if parents_c[i] == gi]
+        nulls = [r for r, i in enumerate(members) if pattern[i]]
+        want += [Elem(S(BV(k))) for k in ks] + [Elem(BV(r)) for r in nulls]
+    for g, res in nodeh.decode_cases(nc, out.mem, nc.m.cell('ret', 0)):
+        if res is None:
+            obls.append(('a result is returned', z3.And(g, z3.Not(out.raised))))
+        else:
+            obls += [(nm, z3.And(g, c)) for nm, c in nodeh.compare_value(res, want)]
+
+    def replay(model, ent):
+        iv = [model.eval(x, model_completion=True).as_signed_long() for x in idx]
+        lc = max([model.eval(nc.lencontent, model_completion=True).as_signed_long(), 1] + [v + 1 for v in iv])
+        if lc > 60:
+            return False, 'content too long to replay', {}
+        a_ = z3.is_true(model.eval(asc == 1, model_completion=True))
+        vals = [7 * v % 11 for v in range(lc)]
+        counts = [sum(1 for p in parents_c if p == gi) for gi in range(G)]
+        oo, acc = [0], 0
+        for c in counts:
+            acc += c; oo.append(acc)
+        entries = [None if v < 0 else vals[v] for v in iv]
+        prog = 'i64 %s option64 %s listoffset64 %s argsort 1 %d 1' % (fullnative.ints(vals), fullnative.ints(iv), fullnative.ints(oo), 1 if a_ else 0)
+        exp = []
+        for gi in range(G):
+            grp = entries[oo[gi]:oo[gi + 1]]
+            pres = sorted([j for j in range(len(grp)) if grp[j] is not None], key=lambda j: ((grp[j] if a_ else -grp[j]), j))
+            exp.append(pres + [j for j in range(len(grp)) if grp[j] is None])
+        return akrun_check(prog, exp, 'argsort(axis=1, ascending=%s, stable) of lists %s of option-type numbers %s' % (a_, counts, entries))
+    return mdischarge(nc.m, 'IndexedOptionArray64::argsort_next pattern=%s groups=%s' % (''.join('N' if p else 'v' for p in pattern), parents_c), obls, [], replay=replay, prefer=[nc.lencontent <= 8],
+                      extra=dict(bounds='%d entries, missing pattern and groups concrete (case split), index values, direction and stability symbolic' % n))
+
+
+def jobs_option_argsort(tier):
+    q = [((0, 1, 0), (0, 0, 0)), ((1, 0, 0, 1), (0, 0, 1, 1)), ((1, 1), (0, 0)), ((0, 0), (0, 1))]
+    if tier != 'quick':
+        q += [((0, 1, 1, 0, 1), (0, 0, 1, 1, 1)), ((1,), (0,)), ((0, 1, 0, 1), (0, 1, 1, 2)), ((0, 0, 0), (0, 0, 0)), ((1, 1, 0), (0, 1, 1)), ((1, 0, 1), (0, 2, 2))]
+    return [(h_option_argsort, a, 1800) for a in q]
